@@ -8,7 +8,8 @@ CONSTANTS
   Preamble = FALSE
   MaxConf = 1
   Buf = 1
-  Fixes = {"D1", "D14", "D2", "D18", "D19", "D20", "D21"}
+  Fixes = {"D1", "D14", "D2", "D18", "D19", "D20", "D21", "D23"}
+  ColorOnly = FALSE
   ReplayLen = 0
 INVARIANTS RowsOnceInOrder Lag PrefixStable Boundary LanguageByName Replay
 PROPERTY NeverRevised
